@@ -609,9 +609,9 @@ def chaos(args):
         for t in hs:
             t.start()
         for t in hs:
-            t.join(60)
+            t.join(30)
             if t.is_alive():
-                out["problems"].append("a healthy client got no answer within 60 s")
+                out["problems"].append("a healthy client got no answer within 30 s")
         stop.set()
         for t in threads:
             t.join(10)
@@ -676,14 +676,14 @@ def run(chk):
         chk.count("corpus")
     nA = 240 if quick else 4000
     args = [(base + i, 0 if i % 2 else 64, chk.rng.randint(20, 60) if quick else chk.rng.randint(40, 200)) for i in range(nA)]
-    for k in range(0, len(args), 64):        # in batches: a broken server makes every session wait for its time-outs
-        check_sessions(chk, common.pmap(one_session, args[k:k + 64], procs=8))
+    for k in range(0, len(args), 48):        # in batches: a broken server makes every session wait for its time-outs
+        check_sessions(chk, common.pmap(one_session, args[k:k + 48], procs=12))
         if chk.violations:
             chk.notes.append("stopped after the first batch with violations")
             break
     nB = 32 if quick else 400
     if chk.violations:
-        nB = 8
+        nB = 2
     for res in common.pmap(chaos, [(base + 7 * i, 3 + i % 4, 6 + (i * 5) % 15) for i in range(nB)], procs=8, chunk=1):
         chk.count("chaos-run")
         chk.count("chaos-adversary-actions", res["adv_actions"])
